@@ -119,6 +119,15 @@ func c07Deviations() []envDev {
 		s.jSet(envenc.HdrExpiry, `"`+txt+`"`)
 		s.jSet(s.timeHdr(), `"`+txt+`"`)
 	})
+	// JWS times may carry fractions of a second: "strictly later" is a comparison of instants, not of seconds
+	add("jws-expiry-earlier-within-the-same-second", "expiry+time", "reject", "jws", "expiry", func(s *envSpec) {
+		s.jSet(s.timeHdr(), js(s.cont.SigningTime.Add(900*time.Millisecond).UTC().Format(time.RFC3339Nano)))
+		s.jSet(envenc.HdrExpiry, js(s.cont.SigningTime.Add(500*time.Millisecond).UTC().Format(time.RFC3339Nano)))
+	})
+	add("jws-expiry=signing-both-with-a-fraction", "expiry+time", "reject", "jws", "expiry", func(s *envSpec) {
+		s.jSet(s.timeHdr(), js(s.cont.SigningTime.Add(500*time.Millisecond).UTC().Format(time.RFC3339Nano)))
+		s.jSet(envenc.HdrExpiry, js(s.cont.SigningTime.Add(500*time.Millisecond).UTC().Format(time.RFC3339Nano)))
+	})
 	add("expiry=signing+1s", "expiry", "benign", "", "expiry", func(s *envSpec) {
 		t := s.cont.SigningTime.Add(time.Second)
 		s.hSet(envenc.HdrExpiry, js(t.UTC().Format(time.RFC3339)), envenc.CTime(t))
